@@ -24,7 +24,8 @@ RULE = (
     "reference calendar says it is a real date-time of the mode, refusal must "
     "be a ValueError subclass. Truncated (year-less) constructor tuples: "
     "month 0/13, day 0 or beyond the mode's longest month / the named month, "
-    "day-of-year 0 or beyond the mode's leap-year length, weekday 0/8 refused; "
+    "day-of-year 0 or beyond the mode's leap-year length, week beyond the "
+    "mode's longest week-year, weekday 0/8 refused; "
     "in-range accepted. kind 'fuzz' (Hypothesis): mutations and splices of "
     "valid time point, duration and recurrence expressions and arbitrary "
     "unicode (incl. non-ASCII digits) through the three parsers under "
@@ -269,6 +270,15 @@ def box_truncated(mode):
         yield ("tro", doy), doy in (0, 1, sum(leap), sum(leap) + 1), _judge(
             "%s TimePoint(truncated, day_of_year=%d)" % (mode, doy), valid,
             _try(lambda: D.TimePoint(truncated=True, day_of_year=doy)), "trunc")
+    max_weeks = 52 if cm == "360day" else 53    # longest week-year of the mode
+    for w in range(-1, 56):
+        if w == 0:
+            continue        # week 0 alone is "not specified"
+        valid = 1 <= w <= max_weeks
+        yield ("trk", w), True, _judge(
+            "%s TimePoint(truncated, week_of_year=%d, day_of_week=1)" % (mode, w),
+            valid, _try(lambda: D.TimePoint(truncated=True, week_of_year=w,
+                                            day_of_week=1)), "trunc")
     for wd in range(-1, 10):
         if wd == 0:
             continue        # weekday 0 alone is "not specified"
